@@ -88,6 +88,8 @@ def run_c07(ctx):
     ctx.mc("MC_Plan", {"MaxLen": 3}, ["RunRefines", "ChainHolds"])
     _api_machine(ctx, quick, 6, 400 if quick else 8000)
     rc = random_hist(ctx, 200 if quick else 4000, 22, base=10000)
+    for c in rc:
+        c["groundrep"] = True
     tf = ctx.drive("hist", rc, hashseeds=(0, 1, 2) if quick else tuple(range(16)))
     ctx.validate(tf, {c["id"]: c for c in rc}, driver="hist")
     _stats(tf, ctx, {"Apply", "ApplyOp", "IsApplicableOp", "RunPlan", "CopyState", "ExportTrajectory", "ParseTrajectory"})
